@@ -143,7 +143,8 @@ def gen_target(rng: random.Random, case: Dict[str, Any]) -> Tuple[bytes, bool, D
         port = b':%d' % rng.randint(1024, 65000)     # 'rand' -> replaced by the origin's port in live mode
     ui = b''
     if case.get('userinfo') and not connect:
-        ui = rng.choice([b'user:pass@', b'u%40x:p%3Aq@', b'user:@', b'a.b-c:d_e~f@'])
+        # (the last four look like host:port themselves: credentials never name the destination)
+        ui = rng.choice([b'user:pass@', b'u%40x:p%3Aq@', b'user:@', b'a.b-c:d_e~f@', b'admin:12345@', b'127.0.0.9:81@', b'evil.test:8080@', b'u:80@'])
     if connect:
         target = host + port
     else:
